@@ -6,7 +6,9 @@ import vlib
 from vlib import enc, dec, enc_diff, dec_diff, canon, canon_diff, plain, exc_class
 import gen_json
 
-THEOREMS = ["Nbdime.C02_seq_roundtrip_partial", "Nbdime.patchList_map_toOp", "Nbdime.Abs.patch_dfl"]
+THEOREMS = ["Nbdime.C02_list_roundtrip", "Nbdime.C02_list_roundtrip_strict", "Nbdime.C02_list_roundtrip_pyEq_partial", "Nbdime.C02_pyEq_refuted",
+            "Nbdime.C02_seq_roundtrip_partial", "Nbdime.diffFromLcs_eq_dfl", "Nbdime.lcsBack_matching", "Nbdime.patchList_map_toOp", "Nbdime.Abs.patch_dfl",
+            "Nbdime.J.beq_eq", "Nbdime.J.pyEq_eq"]
 
 
 def impl_diff(a, b):
